@@ -282,6 +282,18 @@ func scriptedHandler(cr **chainRun, i int, h *Sx) flamego.Handler {
 				body(c)
 				return json.RawMessage(mkBytes(ret[0].Args()[0])), mkErr(ret[1].Args()[0])
 			}
+		// a concrete error type as the declared result type (not the interface)
+		case "err,":
+			if ret[0].Args()[0].Atom != "nil" {
+				return func(c flamego.Context) *customErr { body(c); return &customErr{msg: ret[0].Args()[0].Bytes()} }
+			}
+		case "int,err,":
+			if ret[1].Args()[0].Atom != "nil" {
+				return func(c flamego.Context) (int, *customErr) {
+					body(c)
+					return ret[0].Args()[0].Int(), &customErr{msg: ret[1].Args()[0].Bytes()}
+				}
+			}
 		}
 	}
 	teapot := h.Field("fast") != nil && h.Field("fast").Args()[0].Atom == "2"
